@@ -1064,6 +1064,10 @@ impl<'l> CelCompiler<'l> {
                             ))
                         }
 
+                        // the code is generated last argument first; the syntax tree keeps
+                        // the arguments in source order
+                        args_ast.reverse();
+
                         member_prime_node = args_node
                             .consume_child(member_prime_node)
                             .consume_child(CompiledProg::with_code_points(vec![ByteCode::Call(
